@@ -33,8 +33,8 @@ CHECKS = {
         ref="DESIGN.md §4 C16",
     ),
     "C17": dict(
-        text="Partial: decides hop bookkeeping, trivial-crossing permutation, frustrated hop = no change, per-trajectory isolation, probability bounds, exact energy conservation and smaller-root choice; norm preservation only for zero coupling. TLC checks FSSH (two trajectories, three states; per step and trajectory a TLC-chosen trivial-crossing permutation, hop target and kinematics with exact rational velocity rescaling): SwapIsPermutation, FrustratedNoChange, EnergyExact, SmallerRoot, HoldoffBlocksHop, Isolation, PotentialTracksActive, decoherence on/off; sgn(0)=0 and swap-applied-to-all mutants are refuted. Thousands of exported behaviours are replayed on the real SurfaceHoppingDynamics._after_electronic_update / _attempt_hop / _rescale_velocity_along_nac (dummy dynamics objects as in the repository's tests; random draw, crossing mask, coupling vector and gap are the behaviour's inputs): active state, amplitude slots, hold-off, previous state, velocities (exact rationals, 1e-12), potential, hop log must equal the model's. _attempt_hop alone is driven over a dyadic grid.",
-        note="Not decided: RK4 norm preservation for non-zero coupling. One atom per trajectory, masses {1,2}, integer vectors, at most one accepted stochastic hop per trajectory; the hold-off tick of _do_integrator_step is performed by the driver; for v.d = 0 either root is accepted.",
+        text="Partial: decides hop bookkeeping, trivial-crossing permutation, frustrated hop = no change, per-trajectory isolation, probability bounds, exact energy conservation and smaller-root choice; exact norm preservation for zero coupling and drift at the integrator's order otherwise. TLC checks FSSH (two trajectories, three states; per step and trajectory a TLC-chosen trivial-crossing permutation, hop target and kinematics with exact rational velocity rescaling): SwapIsPermutation, FrustratedNoChange, EnergyExact, SmallerRoot, HoldoffBlocksHop, Isolation, PotentialTracksActive, decoherence on/off; sgn(0)=0 and swap-applied-to-all mutants are refuted. Thousands of exported behaviours are replayed on the real SurfaceHoppingDynamics._after_electronic_update / _attempt_hop / _rescale_velocity_along_nac (dummy dynamics objects as in the repository's tests; random draw, crossing mask, coupling vector and gap are the behaviour's inputs): active state, amplitude slots, hold-off, previous state, velocities (exact rationals, 1e-12), potential, hop log must equal the model's. _attempt_hop alone is driven over a dyadic grid.",
+        note="Population conservation for non-zero coupling is monitored at the integrator's order (the drift falls by at least 10 per doubling of the sub-steps; 2..8 states, gaps 1e-4..5 eV, coupling spikes). One atom per trajectory, masses {1,2}, integer vectors, at most one accepted stochastic hop per trajectory; the hold-off tick of _do_integrator_step is performed by the driver; for v.d = 0 either root is accepted.",
         tech="explicit TLA+ model (FSSH) with exact rational kinematics checked by TLC; exported behaviours replayed on the real hop bookkeeping",
         ref="DESIGN.md §4 C17",
     ),
